@@ -337,6 +337,26 @@ def replay_numeric(which):
                 details["gmres blocked tol=%g strong=%s (relative residual)" % (tol, strong)] = rr
                 if info != 0 or rr > 5 * tol or cnt != len(res) or sol[0].space != dp0 or sol[1].space != p1:
                     bad["gmres blocked tol=%g strong=%s (relative residual)" % (tol, strong)] = rr
+    if which in ("gmres-blocked-mixed", "all"):
+        # blocked system whose rows have range != dual_to_range with a non-symmetric mixed mass matrix (tetrahedron: 4 vertices, 4 faces): the strong form
+        # must use M(range_i, dual_i)^-1 -- solution of the strong-form gmres equals the solution of lu and the exact f
+        from bempp_cl.api.operators.boundary import laplace as _lap
+
+        gt = SG.make_grid(*SG.tetra())
+        tp1, tdp0 = api.function_space(gt, "P", 1), api.function_space(gt, "DP", 0)
+        tpar = Z.params(3, 3)
+        Bm = api.BlockedOperator(2, 2)
+        Bm[0, 0] = _lap.single_layer(tdp0, tp1, tdp0, parameters=tpar)
+        Bm[0, 1] = _lap.single_layer(tp1, tp1, tdp0, parameters=tpar)
+        Bm[1, 1] = _lap.single_layer(tp1, tdp0, tp1, parameters=tpar)
+        ft = [api.GridFunction(tdp0, coefficients=rng.randn(4)), api.GridFunction(tp1, coefficients=rng.randn(4))]
+        rhs_t = Bm * ft
+        for strong in (False, True):
+            sol, info = gmres(Bm, rhs_t, tol=1e-11, use_strong_form=strong, restart=20, maxiter=200)
+            e = max(Z.relerr(sol[0].coefficients, ft[0].coefficients), Z.relerr(sol[1].coefficients, ft[1].coefficients))
+            details["gmres blocked, range != dual, strong=%s" % strong] = e
+            if info != 0 or e > 1e-8 or sol[0].space != tdp0 or sol[1].space != tp1:
+                bad["gmres blocked, range != dual, strong=%s" % strong] = e
     if which in ("gmres", "cg", "all"):
         xc, info = gmres(Vh, Vh * fc, tol=1e-10, maxiter=300)
         e = Z.relerr(xc.coefficients, fc.coefficients)
@@ -378,6 +398,7 @@ def main():
     run.add("numeric.lu-blocked", "bounded", ob_numeric, "lu-blocked")
     run.add("numeric.gmres+cg", "bounded", ob_numeric, "gmres")
     run.add("numeric.gmres-blocked", "bounded", ob_numeric, "gmres-blocked")
+    run.add("numeric.gmres-blocked-mixed-spaces", "bounded", ob_numeric, "gmres-blocked-mixed")
     run.bound("symbolic part: generic 4x4 / 6x6 systems; numeric part: 32-element octahedron, tol 1e-4, 1e-8, 1e-12, weak and strong form")
     run.assume("convergence of the iterative solvers on well-conditioned systems is scipy's; checked only on the listed operators")
     return run.finish()
